@@ -80,7 +80,9 @@ func (m *mem) Get(h string) ([]byte, error) {
 	if !found {
 		return nil, notFound(h)
 	}
-	return bs, nil
+	cp := make([]byte, len(bs))
+	copy(cp, bs)
+	return cp, nil
 }
 
 func (m *mem) Has(h string) (bool, error) {
